@@ -5,7 +5,7 @@ EXTENDS Integers, Sequences, FiniteSets, TLC
 FlagSets == SUBSET {"IN", "OUT", "RDHUP", "HUP", "ERR"}
 Pendings == {0, 3, 9000}
 Peers == {"open", "fin", "rst"}
-Ways == {"real", "synth"}
+Ways == {"real", "synth", "synthfull"}   \* synthfull: write-readiness reported, but the send buffer has filled up by the time the handler sends
 Transports == {"unix", "tcp"}
 
 \* Linux reports a hang-up only for a closed peer, and always together with IN (end-of-file is readable)
@@ -15,6 +15,7 @@ Vectors ==
     {<<f, p, pe, o, w, tr>> \in FlagSets \X Pendings \X Peers \X BOOLEAN \X Ways \X Transports :
         /\ (w = "real" => f = {})
         /\ (w = "synth" => f # {} /\ Consistent(f, pe))
+        /\ (w = "synthfull" => f = {"OUT"} /\ o /\ pe = "open" /\ p = 0)
         \* EPOLLERR is injected on TCP only: there the error-queue probe has its documented meaning
         \* (empty queue = zero-copy style notification, no hang-up); AF_UNIX has no error queue
         /\ ("ERR" \in f => tr = "tcp")
